@@ -2,6 +2,8 @@
 with the model), the rule that makes a case non-trivial, assumptions (DESIGN §2.2, §6)."""
 
 ENGINES = {
+    "seqr": {"shards_thorough": 14},
+    "queue": {"shards_thorough": 8},
     "pure": {"shards_thorough": 8},
     "seq": {"shards_thorough": 14},
     "seq0": {"shards_thorough": 14},
@@ -28,7 +30,7 @@ PROPS = {
         "assumptions": ["ids unique among resting orders; sums below 2^63 (the property's quantifier)"],
     },
     "C01": {
-        "engines": ["seq", "seq0"],
+        "engines": ["seq", "seq0", "seqr"],
         "footprint": {"state": ["vis", "hid", "cnt", "list"]},
         "nontrivial": r"^match txs=\[[^\]]+\]",
         "rule": "E-seq (positive quantities) and E-seq0 (zero quantities allowed): random histories (1-40 ops, thorough 1-120) of "
@@ -81,6 +83,25 @@ PROPS = {
                 "followed by three draining matches; the maker sequence of every match is compared with the model's and judged: equal to the "
                 "model's, and the model's hand-out order after the op compared with the order the property's rules give from the order before it "
                 "(deviations classified F1 / F2 are the known findings); non-trivial = a match with at least two transactions",
+        "assumptions": ["as C01"],
+    },
+    "C10": {
+        "engines": ["seqr"],
+        "footprint": {"rebuild": "*", "state": ["vis", "hid", "cnt", "list"]},
+        "nontrivial": r"^rebuild ok",
+        "rule": "E-seq with constructor ops: at random points of random histories (zero quantities allowed) the level is rebuilt from its own "
+                "snapshot / From<&Snapshot> / package / package JSON / PriceLevelData / serde JSON / Display->FromStr, and from lying external "
+                "data (snapshot and PriceLevelData whose aggregate fields disagree with their orders); content and aggregates before/after judged "
+                "equal, the raw listing judged sorted by timestamp and duplicate-free; non-trivial = the history contains a successful rebuild",
+        "assumptions": ["as C01; the listing order the real level produced among equal timestamps (DashMap hash order) is passed to the model, which checks it is an admissible listing"],
+    },
+    "C11": {
+        "engines": ["seqr"],
+        "footprint": {"fork": "*", "match": ["txs"]},
+        "nontrivial": r"^fork ok",
+        "rule": "E-seq with a fork: at a random point a second real level is restored from the first one's snapshot (direct or via package JSON) "
+                "and both are fed the same continuation; the maker sequences of every later match on both levels are compared with each other and "
+                "with the model's two levels; non-trivial = the history contains a fork",
         "assumptions": ["as C01"],
     },
 }
